@@ -5,17 +5,20 @@ From PyQMC Require Import C18.Model C18.Proofs.
 From PyQMC Require Import base.Vec3R gen.Kernels_Gen C01.Model C01.Proofs.
 Import ListNotations. Open Scope R_scope.
 
-(* forward / backward are the squared noises of the move and of the reverse move for drift tstep * D *)
-Theorem C01_forward_is_forward_noise : forall tstep D x gauss,
-  vmc_forward gauss = norm2 (vsub (vsub (vmc_newcoorde tstep x gauss (D x)) x) (vscal tstep (D x))).
-Proof. exact vmc_forward_is_forward_noise. Qed.
-Print Assumptions C01_forward_is_forward_noise.
+(* the exponent of the acceptance ratio is ln T(x'->x) - ln T(x->x') for drift tstep * D and variance tstep: the squared noise of the reverse
+   move minus the squared noise of the forward move, over 2 tstep *)
+Theorem C01_exponent_is_log_density_ratio : forall tstep D x gauss, 0 < tstep ->
+  let x' := vmc_newcoorde tstep x gauss (D x) in let drift := fun a => vscal tstep (D a) in
+  vmc_lnT_arg tstep gauss (D x) (D x') = lnT tstep drift x' x - lnT tstep drift x x'.
+Proof. intros. apply vmc_lnT_arg_is_log_density_ratio. assumption. Qed.
+Print Assumptions C01_exponent_is_log_density_ratio.
 
-Theorem C01_backward_is_reverse_noise : forall tstep D x gauss,
-  vmc_backward tstep gauss (D x) (D (vmc_newcoorde tstep x gauss (D x))) =
-  norm2 (vsub (vsub x (vmc_newcoorde tstep x gauss (D x))) (vscal tstep (D (vmc_newcoorde tstep x gauss (D x))))).
-Proof. exact vmc_backward_is_reverse_noise. Qed.
-Print Assumptions C01_backward_is_reverse_noise.
+(* ... and the quantity compared with the uniform number is |Psi'/Psi|^2 times the exponential of it *)
+Theorem C01_ratio_is_psi2_times_tprob : forall tstep u v gauss dx dn,
+  (vmc_accept tstep u v gauss dx dn <-> u < vmc_ratio tstep v gauss dx dn) /\
+  vmc_ratio tstep v gauss dx dn = Rabs v ^ 2 * vmc_t_prob tstep gauss dx dn /\ vmc_t_prob tstep gauss dx dn = exp (vmc_lnT_arg tstep gauss dx dn).
+Proof. intros. split; [|split]; [eapply vmc_accept_shape|eapply vmc_ratio_shape|reflexivity]. Qed.
+Print Assumptions C01_ratio_is_psi2_times_tprob.
 
 (* the Gaussian actually drawn (scale = sqrt tstep) has variance tstep *)
 Theorem C01_proposal_variance_is_tstep : forall tstep, 0 < tstep -> vmc_proposal_scale tstep ^ 2 = tstep.
